@@ -1,6 +1,7 @@
 (* C11 — valid queries parse to the structure they denote; invalid ones are rejected; parsing
    never panics.  Statements only. *)
-From DT Require Import Lib.Bytes Lib.Split Gen.Consts Model.C11_Query Proofs.C11_Query Proofs.C11_Surface.
+From Coq Require Import Permutation.
+From DT Require Import Lib.Bytes Lib.Split Gen.Consts Model.C11_Query Proofs.C11_Query Proofs.C11_Surface Proofs.C11_Order.
 
 (* Parsing never panics: for every query text and every behaviour of strconv's ParseFloat / Atoi,
    NewQuery returns (nil,nil) for the empty string, an error, or a query - every slice and index
@@ -35,11 +36,22 @@ Theorem C11_separators_parse : forall is_float atoi lead1 items1 lead2 items2,
 Proof. exact new_query_separators. Qed.
 Print Assumptions C11_separators_parse.
 
-(* The full round-trip statement (every valid query in every surface variation - clause order, quoting -
-   parses to the structure it denotes; everything else is rejected) is NOT proved: it is exercised by the
+(* The order of the clauses does not matter: a query made of well-formed clauses (keyword + non-empty
+   body without keywords) of pairwise different kinds parses to the same result - the same query or the
+   same rejection - in every permutation of its clauses, whatever strconv does. *)
+Theorem C11_clause_order : forall is_float atoi (cs cs' : list cl) (q : query) (f f' : nat),
+  Forall wf_clause cs -> Permutation cs cs' -> NoDup (map slot (upds is_float atoi cs)) ->
+  length (toks cs) < f -> length (toks cs') < f' ->
+  parse_tokens is_float atoi f q (toks cs) = parse_tokens is_float atoi f' q (toks cs').
+Proof. exact clause_order. Qed.
+Print Assumptions C11_clause_order.
+
+(* What is still NOT proved of the round trip: that the structure obtained is the one the query denotes
+   (this direction, the quoting variants and the rejection of malformed families are decided by the
    correspondence check, which renders random abstract queries in random clause orders, keyword cases,
    separator styles and quotings, mutates them, and compares every parsed field of mapr.NewQuery with this
-   model.  What is proved is totality, keyword case-insensitivity and separator invariance. *)
+   model and with an independent denotation).  Proved: totality, keyword case-insensitivity, separator
+   invariance, clause-order invariance. *)
 Example C11_example :
   let text := B"SeLeCt count(x),`avg(y)`  from stats WHERE a >= 2.5 and ""s t"" eq b group by h rorder by count(x) limit 10" in
   match new_query (fun s => bytes_eqb s (B"2.5")) (fun s => if bytes_eqb s (B"10") then Some 10%Z else None) text with
@@ -54,3 +66,17 @@ Example C11_separators_example :
   /\ tokenize ([x0a] ++ render [(B"select", [x09]); (B"count(x)", [x2c; x0a; x20]); (B"from", [x0d; x0a]); (B"S", [])])
      = map bare_tok [B"select"; B"count(x)"; B"from"; B"S"].
 Proof. split; [apply well_sep_b_ok; vm_compute; reflexivity|vm_compute; reflexivity]. Qed.
+
+Local Notation w s := (bare_tok (B s)) (only parsing).
+Example C11_clause_order_example :
+  let cs := [(w "select", [w "count(x)"; w "host"]); (w "from", [w "stats"]); (w "group", [w "by"; w "host"]); (w "limit", [w "10"])] in
+  let cs' := [(w "limit", [w "10"]); (w "group", [w "by"; w "host"]); (w "select", [w "count(x)"; w "host"]); (w "from", [w "stats"])] in
+  let atoi := fun s => if bytes_eqb s (B"10") then Some 10%Z else None in
+  Forall wf_clause cs /\ Permutation cs cs' /\ NoDup (map slot (upds (fun _ => false) atoi cs))
+  /\ match parse_tokens (fun _ => false) atoi 20 q0 (toks cs') with ROk q => q_table q = B"STATS" /\ q_limit q = 10%Z /\ q_groupby q = [B"host"] | _ => False end.
+Proof.
+  cbv zeta. split; [repeat constructor; apply wf_clause_b_ok; vm_compute; reflexivity|]. split.
+  - eapply perm_trans; [apply Permutation_rev|]. cbn [rev app].
+    apply perm_skip. apply perm_skip. apply perm_swap.
+  - split; [vm_compute; repeat constructor; cbn; intuition discriminate|vm_compute; repeat split; reflexivity].
+Qed.
